@@ -364,18 +364,18 @@ fn random_int_near(t: &str, rng: &mut Rng) -> FieldValue {
     let (lo, hi) = int_bounds(t).unwrap();
     let lo = lo.max(i64::MIN as i128);
     let hi = hi.min(u64::MAX as i128);
-    let n: i128 = match rng.below(8) {
-        0 => lo + rng.below(3) as i128,
-        1 => lo - 1 - rng.below(3) as i128,
-        2 => hi - rng.below(3) as i128,
-        3 => hi + 1 + rng.below(3) as i128,
-        4 => rng.below(5) as i128 - 2,
-        5 => {
+    let n: i128 = match rng.below(16) {
+        0..=2 => lo + rng.below(3) as i128,
+        3 => lo - 1 - rng.below(3) as i128,
+        4..=6 => hi - rng.below(3) as i128,
+        7 => hi + 1 + rng.below(3) as i128,
+        8..=10 => rng.below(5) as i128 - 2,
+        11..=13 => {
             // anywhere inside
             let span = (hi - lo) as u128 + 1;
             lo + ((rng.next_u64() as u128 * 0x1_0000_0001u128 + rng.next_u64() as u128) % span) as i128
         }
-        6 => rng.next_u64() as i64 as i128,
+        14 => rng.next_u64() as i64 as i128,
         _ => rng.next_u64() as i128,
     };
     let n = n.clamp(i64::MIN as i128, u64::MAX as i128);
